@@ -60,6 +60,12 @@ pub enum Ev {
     /// byte 2) panics - a corrupt device buffer behind a checked accessor - is fed to the main
     /// instance; the host catches the panic and carries on. No message was delivered.
     FeedAbort { b: [u8; 3], which: u8 },
+    /// Marathon: a cycle of one to three messages that can never justify a report (parameter-number
+    /// bytes, 14-bit-CC MSB controllers other than 6, non-contributing traffic) is delivered to
+    /// every instance n more times (n up to 2^24 + 2). Two rounds before and one round after go
+    /// through the ordinary delivery with every observer; the rounds in between only check that
+    /// every instance answers nothing.
+    Bulk { n: u32, cycle: Vec<[u8; 3]> },
 }
 
 #[derive(Clone, Debug, PartialEq, Eq, Hash)]
@@ -71,6 +77,9 @@ pub struct Trace {
     /// the host creates its scanners with `Default::default()` instead of `new(..)` (the polling
     /// scanner only when the timeout is zero, where the two must be the same)
     pub ctor_default: bool,
+    /// what the process environment looks like to library code (see `simenv`): 0 = every variable
+    /// unset, 1 = every variable "0", 2 = every variable "1", 3 = every variable empty
+    pub env_mode: u8,
     pub events: Vec<Ev>,
 }
 
@@ -115,6 +124,7 @@ impl Ev {
             Ev::Restore => J::arr([J::s("restore")]),
             Ev::Hop { n } => J::arr([J::s("hop"), ji(*n)]),
             Ev::FeedAbort { b, which } => J::arr([J::s("feed_abort"), ji(b[0]), ji(b[1]), ji(b[2]), ji(*which)]),
+            Ev::Bulk { n, cycle } => J::arr([J::s("bulk"), ji(*n), J::arr(cycle.iter().map(|b| J::arr([ji(b[0]), ji(b[1]), ji(b[2])])))]),
             Ev::Fork { k, burst } => J::arr([
                 J::s("fork"),
                 ji(*k),
@@ -175,6 +185,24 @@ impl Ev {
             "restore" => Ev::Restore,
             "hop" => Ev::Hop { n: n(1, 255)? as u8 },
             "feed_abort" => Ev::FeedAbort { b: [n(1, 255)? as u8, n(2, 255)? as u8, n(3, 255)? as u8], which: n(4, 2)? as u8 },
+            "bulk" => {
+                let mut cycle = Vec::new();
+                for b in a.get(2).and_then(|x| x.as_arr()).ok_or("bulk: cycle")? {
+                    let t = b.as_arr().ok_or("bulk: cycle item")?;
+                    let g = |i: usize| -> Result<u8, String> {
+                        let v = t.get(i).and_then(|x| x.as_int()).ok_or("bulk: byte")?;
+                        if !(0..=255).contains(&v) {
+                            return Err("bulk: byte range".into());
+                        }
+                        Ok(v as u8)
+                    };
+                    cycle.push([g(0)?, g(1)?, g(2)?]);
+                }
+                if cycle.len() > 3 {
+                    return Err("bulk: cycle longer than 3".into());
+                }
+                Ev::Bulk { n: n(1, (1 << 24) + 2)? as u32, cycle }
+            }
             "fork" => {
                 let mut burst = Vec::new();
                 for b in a.get(2).and_then(|x| x.as_arr()).ok_or("fork: burst")? {
@@ -197,7 +225,7 @@ impl Ev {
 
 impl Trace {
     pub fn to_json(&self) -> J {
-        J::obj().set("timeout_ns", J::Str(self.timeout_ns.to_string())).set("read_step_ns", J::Str(self.read_step_ns.to_string())).set("ctor_default", J::Bool(self.ctor_default)).set("events", J::Arr(self.events.iter().map(|e| e.to_json()).collect()))
+        J::obj().set("timeout_ns", J::Str(self.timeout_ns.to_string())).set("read_step_ns", J::Str(self.read_step_ns.to_string())).set("ctor_default", J::Bool(self.ctor_default)).set("env_mode", J::u(self.env_mode as u64)).set("events", J::Arr(self.events.iter().map(|e| e.to_json()).collect()))
     }
 
     pub fn from_json(j: &J) -> Result<Trace, String> {
@@ -217,7 +245,17 @@ impl Trace {
             return Err("trace: negative read step".into());
         }
         let ctor_default = matches!(j.get("ctor_default"), Some(J::Bool(true)));
-        Ok(Trace { timeout_ns: (t as u128).min(DUR_MAX_NS), read_step_ns: (rs as u128).min(DUR_MAX_NS), ctor_default, events })
+        let env_mode = match j.get("env_mode") {
+            Some(x) => {
+                let v = x.as_int().ok_or("trace: env_mode")?;
+                if !(0..=3).contains(&v) {
+                    return Err("trace: env_mode range".into());
+                }
+                v as u8
+            }
+            None => 0,
+        };
+        Ok(Trace { timeout_ns: (t as u128).min(DUR_MAX_NS), read_step_ns: (rs as u128).min(DUR_MAX_NS), ctor_default, env_mode, events })
     }
 
     /// 64-bit FNV-1a over a canonical encoding; identifies a decision trace.
@@ -226,6 +264,7 @@ impl Trace {
         h.u128(self.timeout_ns);
         h.u128(self.read_step_ns);
         h.b(self.ctor_default as u8);
+        h.b(self.env_mode);
         for e in &self.events {
             match e {
                 Ev::EncCc14 { g, ch, cn, val, fac } => {
@@ -286,6 +325,16 @@ impl Trace {
                 Ev::Hop { n } => {
                     h.b(13);
                     h.b(*n);
+                }
+                Ev::Bulk { n, cycle } => {
+                    h.b(15);
+                    h.u64(*n as u64);
+                    for b in cycle {
+                        h.b(b[0]);
+                        h.b(b[1]);
+                        h.b(b[2]);
+                    }
+                    h.b(0xff);
                 }
                 Ev::FeedAbort { b, which } => {
                     h.b(14);
